@@ -1,4 +1,4 @@
-HOOK_COMMITS = ['261214f', '7473a7b', 'b193b9c', '236d7ec', 'e2efb1f', '03a69db', 'cfb1ec0']
+HOOK_COMMITS = ['261214f', '7473a7b', 'b193b9c', '236d7ec', 'e2efb1f', '03a69db', 'cfb1ec0', '69ed101']
 FIX_COMMITS = ['6ab1b61', 'aa5da3f', '23893cd', 'b2f43bf', '6457cb8', '9d7243e', '99e9484', '2173ac6', '62af4cc', '26a6dc2', '11fc74a', '0f6d027', 'e5a31d6', '90ab653', 'c33be62', '33896dd', '86f9aa3', '5aea712', '7455c3e', '08de576', '70dc05f', 'a801988', '4988600', 'bf937de']
 NOTES = ('Every check: proof gate (full coq build, forbidden-construct scan, Print Assumptions allow-list = empty) '
          '+ correspondence (extracted model vs real code on corpus + generated cases) + model-free oracle; '
@@ -296,3 +296,5 @@ CLAIMED['C19']['text'] += (' END TO END (Proofs/NatDevice.v, NatE2E.v): for the 
     'source-NAT device with the RFC 1624 incremental update (three updates = full recomputation); exact conditions for a mark; no hop is ever marked over whole histories of an unrewritten path, in every flow; one device over any history; a closed form for two devices; each per-flow updater pass starts from no carried checksum. '
     'KNOWN FINDING F23 (c19_port_only_rewrite_refuted, dublin4natport lines): the expected checksum is recomputed from the QUOTED ports, so a device that rewrites only the source port in front of the first responding hop is never shown. '
     'Observations by witness: a rewrite that preserves the one\'s-complement sum is invisible to any checksum comparison; the mark sits on the first RESPONDING hop, so loss at that hop in a later round marks a second hop.')
+
+CLAIMED['C16']['text'] += ' The tracer app.rs start_tracer builds (hook: built, not spawned) is compared setting by setting (channel, strategy and state configuration) with the effective configuration on every case - the Builder chain of start_tracer is no longer transcribed in the harness.'
